@@ -66,8 +66,16 @@ _LZMA_FORMAT = lzma.FORMAT_RAW
 _LZMA_DECOMPRESSION_FILTERS: List[Dict[str, int]] = [{"id": lzma.FILTER_LZMA2}]
 
 
+# a raw LZMA2 stream does not record its dictionary size, and the reader decodes with the default one (preset 6: 8MiB).
+#  presets 7-9 would compress with a 16-64MiB dictionary, which that decoder can't follow once the data is bigger than 8MiB.
+_LZMA_MAX_DICT_SIZE = 1 << 23
+
+
 def _lzma_compression_filters(dw: int, preset: int) -> List[Dict[str, int]]:
-    return [{"id": lzma.FILTER_LZMA2, "preset": preset, "nice_len": dw}]
+    lzma2_filter = {"id": lzma.FILTER_LZMA2, "preset": preset, "nice_len": dw}
+    if preset > lzma.PRESET_DEFAULT:
+        lzma2_filter["dict_size"] = _LZMA_MAX_DICT_SIZE
+    return [lzma2_filter]
 
 
 def _new_garbage_val() -> int:
